@@ -774,6 +774,14 @@ type regExpireLogMsg struct {
 	Tags          []string `json:",omitempty"`
 }
 
+// isExpired applies the lifetime rule to one timeout record. The caller holds r.m.
+func (r *RegisteredDecoys) isExpired(regTimeout *DecoyTimeout) bool {
+	if regTimeout.status == regStatusUnused && time.Since(regTimeout.registrationTime) > r.timeoutUnused {
+		return true
+	}
+	return time.Since(regTimeout.registrationTime) > r.timeoutActive
+}
+
 func (r *RegisteredDecoys) getExpiredRegistrations() []string {
 	r.m.RLock()
 	defer r.m.RUnlock()
@@ -801,11 +809,18 @@ func (r *RegisteredDecoys) removeRegistration(index string) *regExpireLogMsg {
 	r.m.Lock()
 	defer r.m.Unlock()
 
-	expiredReg := r.decoysTimeouts[index]
+	expiredReg, tracked := r.decoysTimeouts[index]
+	if !tracked || !r.isExpired(expiredReg) {
+		// Removed, or marked active, between the collection of expired registrations (under the
+		// read lock) and now: a registration that carried a connection in the meantime has the
+		// active lifetime and must not be dropped by this sweep.
+		return nil
+	}
 	expiredRegObj, ok := r.decoys[expiredReg.decoy][expiredReg.identifier]
 	if !ok {
 		return nil
 	}
+
 
 	stats := &regExpireLogMsg{
 		Valid:          expiredRegObj.Valid,
